@@ -9,7 +9,7 @@
 From Coq Require Import List Arith ZArith Bool Lia.
 From TC.Lib Require Import GoHeap GoHeapProofs.
 From TC.Model Require Import WQ.
-From TC.Proofs Require Import WQHeap WQInv WQCons WQLive.
+From TC.Proofs Require Import WQHeap WQInv WQCons WQLive WQOpts.
 From TC.Findings Require WQ.
 Import ListNotations.
 
@@ -114,6 +114,21 @@ Proof.
   - apply Nat.ltb_ge in H. rewrite H. cbn. split; reflexivity.
 Qed.
 
+(* "Every worker count and queue length" includes every way of giving them: NewQueue applies its options in argument
+   order on top of the defaults (NumCPU workers, length 2*NumCPU); the effective configuration - the W and L all
+   theorems above speak about - is the last WithWorkers value (or NumCPU) and the last WithQueueLength value (or
+   2*NumCPU); in particular the two options may be given in either order, and WithWorkers alone leaves the length at
+   its default. *)
+Theorem C09_configuration : forall ncpu opts pre w l post,
+  effective ncpu opts = (last_workers ncpu opts, last_length (2 * ncpu) opts) /\
+  effective ncpu (pre ++ OptWorkers w :: OptLength l :: post) = effective ncpu (pre ++ OptLength l :: OptWorkers w :: post) /\
+  effective ncpu [OptWorkers w; OptLength l] = (w, l) /\ effective ncpu [OptLength l; OptWorkers w] = (w, l) /\
+  effective ncpu [OptWorkers w] = (w, 2 * ncpu) /\ effective ncpu [OptLength l] = (ncpu, l) /\
+  effective ncpu [] = (ncpu, 2 * ncpu).
+Proof.
+  intros. split; [apply effective_spec|]. split; [apply effective_swap|]. repeat split; reflexivity.
+Qed.
+
 (* ---- non-vacuity: W=1, L=2, seven Enqueue calls and nothing completes: 5 = W+L+2 calls returned, two producers
    blocked, the state is internally quiescent and meets the hypotheses of the theorems above ---- *)
 Example C09_nonvacuous :
@@ -134,3 +149,4 @@ Print Assumptions C09_backpressure_upper.
 Print Assumptions C09_backpressure_lower.
 Print Assumptions C09_resume_partial.
 Print Assumptions C09_resize_partial.
+Print Assumptions C09_configuration.
